@@ -212,7 +212,11 @@ def find_function(tree, qualname):
 def candidates(fn, kind):
     for node in ast.walk(fn):
         if kind == "if" and isinstance(node, ast.If):
-            yield node.test
+            if not node.orelse and len(node.body) == 1 and isinstance(node.body[0], (ast.Continue, ast.Break)):
+                # a guard (`if X: continue`): what lets the loop body proceed is `not X`
+                yield ast.UnaryOp(op=ast.Not(), operand=node.test)
+            else:
+                yield node.test
         elif kind == "while" and isinstance(node, ast.While):
             yield node.test
         elif kind == "if" and isinstance(node, ast.comprehension):
